@@ -107,7 +107,12 @@ pub fn replay(v: &Value) -> Result<String, String> {
     let stdin = v.get("stdin").and_then(|x| x.as_str()).unwrap_or("");
     let interpreted = v.get("interpreted").and_then(|x| x.as_bool()).unwrap_or(false);
     let closed = v.get("stdin_closed").and_then(|x| x.as_bool()).unwrap_or(stdin.is_empty());
-    let out = run_cli(src.as_bytes(), if closed { Stdin::Closed } else { Stdin::Data(stdin.as_bytes()) }, interpreted, 8 << 20, 30_000);
+    // "binary":"unoptimised" = the emulator in cargo's default profile (arithmetic overflow checks on), built by ./check
+    let bin = if v.get("binary").and_then(|x| x.as_str()) == Some("unoptimised") { CLI_DEBUG_BIN } else { CLI_BIN };
+    if !std::path::Path::new(bin).exists() {
+        return Err(format!("{} is not built (run ./check setup)", bin));
+    }
+    let out = run_bin_limited(bin, src.as_bytes(), if closed { Stdin::Closed } else { Stdin::Data(stdin.as_bytes()) }, interpreted, 8 << 20, 60_000, DEFAULT_LIMITS);
     let mut rep = format!("source:\n{}\n--- stdin: {:?}\n--- status: {:?}\n--- stdout:\n{}\n--- stderr:\n{}\n", src, stdin, out.status, out.out_str(), out.err_str());
     let mut ok = out.clean() || v.get("allow_abnormal").and_then(|x| x.as_bool()).unwrap_or(false);
     if !ok {
